@@ -42,7 +42,10 @@ VALUES = [
     ('""', 'str'), ('"a"', 'str'), ('"é日\U0001d11e"', 'str'), ('"' + '1' * 31 + 'é"', 'str'),
     ('"' + '7' * 32 + '"', 'str'), ('"' + 'f' * 33 + '"', 'str'), ('"' + '0' * 42 + '日"', 'str'),
     ('"%.70000f"', 'str'), ('"%-5s%*d%(k)s"', 'str'), ('"%.0g|%.0e|%#.0f|%.0G"', 'str'), ('"%0*.*d|%+ 05x|%#o|%c"', 'str'),
-    ('"%(a)5s|%(a).0g|%(a)-08.3e"', 'str'), ('" \\t\\n"', 'str'), ('"{\\"a\\": [1, 2"', 'str'),
+    ('"%(a)5s|%(a).0g|%(a)-08.3e"', 'str'),
+    # non-ASCII members of the Unicode classes that ASCII-only predicates are easily confused with
+    ('"\u0664\u0662"', 'str'), ('"-\u0663"', 'str'), ('"\u00b2"', 'str'), ('"\u00bd"', 'str'), ('"1\u0662"', 'str'), ('"\uff11\uff12"', 'str'),
+    ('"\u00a0x\u2003"', 'str'), ('"\u00df\u0130\u01c5"', 'str'), ('"a\u0301\u200b"', 'str'), ('"\\ud83d\\ude00"', 'str'), ('" \\t\\n"', 'str'), ('"{\\"a\\": [1, 2"', 'str'),
     ('"a: &x [*x]"', 'str'), ('"-"', 'str'), ('"\\u0000\\u001f"', 'str'),
     ('0', 'num'), ('-0', 'num'), ('5e-324', 'num'), ('1.7976931348623157e308', 'num'), ('-1.7976931348623157e308', 'num'),
     ('9007199254740991', 'num'), ('9007199254740992', 'num'), ('9007199254740993', 'num'),
